@@ -1,6 +1,7 @@
 SPECIFICATION Spec
 CONSTANTS
   MaxLen = 4
+  RunLens = {10, 20, 40, 70, 100, 150, 200, 300, 600, 1100, 2100, 5000, 9000, 17000, 33000, 70000, 140000}
   Win = 40
 INVARIANT InvTrue
 CHECK_DEADLOCK FALSE
